@@ -23,7 +23,7 @@ vclose = Fn(IV + 'close_to', ret='r', level='L1', ensures=['C15.close_to.def:: r
             hints=[('return false;\n                        }', 'replace', 'proof { assert(!close_def(self.v@, other.v@, tol)) by { assert(rv(self.v@[i as int]) * rv(other.v@[i as int]) < 0real || rv(rel_diff_fn(self.v@[i as int], other.v@[i as int])) > rv(tol)); } } return false;\n                        }')])
 vdiff = Fn(IV + 'diff', ret='r', level='L0', requires=['C15.diff.nonempty:: self.v@.len() >= 1'],
            ensures=['C15.diff.len:: r.v@.len() == self.v@.len() - 1', 'C15.diff.elem:: forall|i: int| 0 <= i < r.v@.len() ==> #[trigger] r.v@[i] == f_sub(self.v@[i + 1], self.v@[i])'],
-           rewrites=[('(1..self.len()).map(', 'Vector { v: (1..self.len()).map(', 'R26'), ('.collect::<Vector>()', '.collect::<Vec<f64>>() }', 'R26 (second half)')],
+           rewrites=[(r'\((\w+)\.\.self\.len\(\)\)\s*\.map\(', r'Vector { v: (\1..self.len()).map(', 'R26 (range start kept verbatim)', 're'), ('.collect::<Vector>()', '.collect::<Vec<f64>>() }', 'R26 (second half)')],
            closures={1: {'params': 'i: usize', 'ret': 'o: f64', 'requires': ['1 <= i < self.v@.len()'], 'ensures': ['o == f_sub(self.v@[i as int], self.v@[i - 1])']}})
 UNITS = [
     Unit('C15_close', 'C15', [vclose, vdiff], use=core.core_stubs(), types=core.TYPES, type_spec=core.TYPE_SPEC, spec=c15.SPEC + CLOSE_SPEC, preludes=PRE, broadcast=BC, level='L1',
